@@ -161,6 +161,9 @@ CURATED = [
     ('group header with children right after a block closed by de-indentation', [('block', [('case', 'c1', [N('a', 'x1')]), ('else', None, [N('a2', 'x2')])], 'dedent'), ('group', 'grp', [('u', 'x3'), ('w', 'x4')]), N('z', 'x5')]),
     ('group header after a one-clause block closed by de-indentation', [N('p', 'x1'), ('block', [('case', 'c1', [N('h', 'x2')])], 'dedent'), ('group', 'size', [('x', 'x3')])]),
     ('group inside a clause and group closing the nested block', [('block', [('case', 'c1', [('group', 'g', [('u', 'x1')]), ('block', [('case', 'c2', [N('i', 'x2')])], 'dedent'), ('group', 'h', [('w', 'x3')])]), ('else', None, [N('e', 'x4')])], 'dedent'), ('group', 'o', [('q', 'x5')])]),
+    ('three blocks deep, closed by @end', [('block', [('case', 'c1', [N('a', 'x1'), ('block', [('case', 'c2', [N('b', 'x2'), ('block', [('case', 'c3', [N('c', 'x3')]), ('else', None, [N('c2', 'x4')])], 'end'), N('b2', 'x5')])], 'end'), N('a2', 'x6')])], 'end'), N('o', 'x7')]),
+    ('three blocks deep, closed by de-indentation', [('block', [('case', 'c1', [('block', [('case', 'c2', [('block', [('case', 'c3', [N('c', 'x1')])], 'dedent'), N('b', 'x2')])], 'dedent'), N('a', 'x3')])], 'dedent'), N('o', 'x4')]),
+    ('three blocks deep inside an else', [('block', [('case', 'c1', [N('a', 'x1')]), ('else', None, [('block', [('case', 'c2', [('block', [('case', 'c3', [N('c', 'x2')]), ('case', 'c4', [N('d', 'x3')])], 'end')]), ('else', None, [N('e', 'x4')])], 'end')])], 'end'), N('o', 'x5')]),
     ('empty-ish: only else selected branch has nodes', [('block', [('case', 'c1', []), ('else', None, [N('e', 'x1')])], 'dedent'), N('o', 'x2')]),
 ]
 
